@@ -39,6 +39,7 @@ func (s *Service) BlockRootToSlot(ctx context.Context, root phase0.Root) (phase0
 		monitorBlockRootToSlot("failed")
 		return 0, errors.Wrap(err, "failed to obtain block header")
 	}
+	slot = blockResponse.Data.Header.Message.Slot
 	s.SetBlockRootToSlot(root, blockResponse.Data.Header.Message.Slot)
 
 	s.log.Trace().Stringer("root", root).Uint64("slot", uint64(slot)).Msg("Obtained slot from block header")
